@@ -261,7 +261,7 @@ class AnEvaluate(TopLevel):
     """symbolic.An.evaluate (inherited by Infer)."""
     qual = 'symbolic:An.evaluate'
     cls = 'An'
-    props = ('C04', 'C07', 'C08', 'C09', 'C01')
+    props = ('C01', 'C04', 'C07', 'C08', 'C09', 'C19')
     inline = ('_process_result_', '_next_result_')
     trusted = ("_reset_cache_ re-establishes the quiescent state of the whole expression graph (contract ResetCache)",
                "_process_result_ of a SetOf descriptor (UnificationDict construction) is not interpreted")
@@ -314,6 +314,7 @@ class AnEvaluate(TopLevel):
         row = eng.new_dict(b, Z.ZMap.fresh('nrow'))
         super().assume_row(b, c, sig, s.data['ywf'], b.dicts[row.ref], filt(c, b.fields['eval_parent']))
         b.path.append('next:row')
+        b.ghost['pending_row'] = True       # a solution has been computed: it has to be handed out
         outs.append((b, row))
         x = st.clone()
         x.path.append('next:exhausted')
@@ -346,6 +347,12 @@ class AnEvaluate(TopLevel):
                 if isinstance(v, C) and v.v is None:
                     res.append(Outcome(s2, 'loop-ends'))
                     continue
+                if isinstance(v, ZV) and v.ty == 'val':
+                    # iter(f, None) compares what f returned with the sentinel: a user value may be None
+                    e2 = s2.clone()
+                    e2.assume(v.t == Z.NoneVal)
+                    e2.path.append('value-equals-sentinel')
+                    res.append(Outcome(e2, 'loop-ends'))
                 for s3 in eng.assign(target, v, s2):
                     s3.ghost['current_row'] = v
                     res.extend(eng.exec_block(body, s3))
@@ -357,6 +364,7 @@ class AnEvaluate(TopLevel):
             if o.sig in (NEXT, CONTINUE):
                 pass
             elif o.sig in (BREAK, 'loop-ends'):
+                eng.oblige(o.st, "C01/every-computed-solution-is-handed-out", z3.BoolVal(not o.st.ghost.get('pending_row', False)))
                 outs.append(Outcome(o.st))
             else:
                 outs.append(o)
@@ -371,6 +379,16 @@ class AnEvaluate(TopLevel):
         return r
 
     def yield_from(self, eng, st, src, ordinal, node):
+        if isinstance(src, Obj) and src.kind == 'calliter':
+            # yield from iter(f, None)  ==  for r in iter(f, None): yield r
+            tgt = ast.Name(id='__item', ctx=ast.Store())
+            y = ast.Yield(value=ast.Name(id='__item', ctx=ast.Load()))
+            eng.yield_ordinals[id(y)] = ordinal
+            body = [ast.Expr(value=y)]
+            for b in body:
+                for x in ast.walk(b):
+                    ast.copy_location(x, node)
+            return self.loop_calliter(eng, st, tgt, body, src, 100 + ordinal, node)
         if isinstance(src, Obj) and src.kind == 'mapped':
             # yield from map(f, stream)  ==  for r in stream: yield f(r)
             tgt = ast.Name(id='__row', ctx=ast.Store())
@@ -406,6 +424,7 @@ class AnEvaluate(TopLevel):
 
     def on_yield(self, eng, st, v, ordinal, node):
         st = st.clone()
+        st.ghost['pending_row'] = False
         # C08: at a suspension point the caller sees the mode it had when it last resumed the iterator
         eng.oblige(st, f"C08/suspend@yield#{ordinal}/mode-as-at-last-resume", st.ghost['mode'] == st.ghost['resume_mode'],
                    line=node.lineno)
@@ -732,3 +751,138 @@ class RuleModeCM(SymbolicModeCM):
 
 
 CONTRACTS += [SymbolicModeCM, RuleModeCM]
+
+
+Qsub = z3.Function('Qsub', Z.Node, z3.ArraySort(Z.Node, Z.B), Z.B)     # whole subtree quiescent (given the `quiet` array)
+
+
+class ResetOnlyMine(LibModel):
+    """SymbolicExpression._reset_only_my_cache_: afterwards the node's own evaluation state is quiescent: fresh
+    de-duplication sets for both truth values, no per-parent sets, no evaluation parent (part of Q, C04)."""
+    qual = 'symbolic:SymbolicExpression._reset_only_my_cache_'
+    cls = 'SymbolicExpression'
+    props = ('C04', 'C06')
+    modes = ('sound',)
+
+    def modenv(self):
+        return base_modenv()
+
+    def setup(self, eng):
+        st = State()
+        st.fields = init_fields()
+        self.n = z3.Const('self', Z.Node)
+        st.locals['self'] = ZV(self.n, 'node')
+        st.ghost['self'] = self.n
+        st.ghost['own'] = {}
+        return [st]
+
+    def new_SeenSet(self, eng, st, args, kwargs, node):
+        if args or kwargs:
+            raise OutOfSubset("SeenSet(...) with arguments", node)
+        return [(st, Obj('seenset', {'fresh': True}))]
+
+    def setattr(self, eng, st, recv, name, v):
+        if isinstance(recv, ZV) and recv.ty == 'node' and recv.t.eq(self.n) and name in ('_seen_parent_values_', '_seen_parent_values_by_parent_'):
+            st = st.clone()
+            o = dict(st.ghost['own'])
+            o[name] = v
+            st.ghost['own'] = o
+            return [st]
+        return super().setattr(eng, st, recv, name, v)
+
+    def on_exit(self, eng, o):
+        st = o.st
+        if o.sig not in (NEXT, RETURN):
+            eng.oblige(st, "C04/reset/no-exception", z3.BoolVal(False))
+            return
+        own = st.ghost['own']
+        a = own.get('_seen_parent_values_')
+        ok_a = (isinstance(a, Obj) and a.kind == 'pydict' and
+                sorted((k.v for k, _ in a.data['items']), key=str) == [False, True] and
+                all(isinstance(v, Obj) and v.kind == 'seenset' and v.data.get('fresh') for _, v in a.data['items']) and
+                len({id(v) for _, v in a.data['items']}) == 2)
+        b = own.get('_seen_parent_values_by_parent_')
+        ok_b = isinstance(b, D) and True
+        eng.oblige(st, "C04/reset/fresh-seen-sets-for-both-truth-values", z3.BoolVal(bool(ok_a)))
+        eng.oblige(st, "C04/reset/no-per-parent-seen-sets",
+                   st.dicts[b.ref].is_empty() if isinstance(b, D) else z3.BoolVal(False))
+        eng.oblige(st, "C04/reset/no-evaluation-parent", z3.Select(st.fields['eval_parent'], self.n) == Z.NoneNode)
+
+    def signature(self, ob, model):
+        return {}
+
+
+class ResetCache(LibModel):
+    """SymbolicExpression._reset_cache_: resets the node itself and EVERY child (recursively: the callee's own contract,
+    measure = height of the node): afterwards the whole subtree is quiescent."""
+    qual = 'symbolic:SymbolicExpression._reset_cache_'
+    cls = 'SymbolicExpression'
+    props = ('C04', 'C06')
+    modes = ('sound',)
+    trusted = ("Conclusion._reset_cache_ is a no-op: conclusion nodes keep no evaluation state of their own",)
+
+    def modenv(self):
+        return base_modenv()
+
+    def setup(self, eng):
+        st = State()
+        st.fields = init_fields()
+        self.n = z3.Const('self', Z.Node)
+        st.locals['self'] = ZV(self.n, 'node')
+        st.ghost['self'] = self.n
+        st.ghost['own_reset'] = False
+        st.ghost['children_loop'] = None
+        return [st]
+
+    def getattr(self, eng, st, recv, name):
+        if isinstance(recv, ZV) and recv.ty == 'node' and recv.t.eq(self.n) and name == '_children_':
+            return [(st, Obj('children', {'of': recv.t}))]
+        return super().getattr(eng, st, recv, name)
+
+    def node__reset_only_my_cache_(self, eng, st, recv, args, kwargs, node):
+        st = st.clone()
+        if recv.t.eq(self.n):
+            st.ghost['own_reset'] = True
+        return [(st, NONE)]
+
+    def node__reset_cache_(self, eng, st, recv, args, kwargs, node):
+        st = st.clone()
+        st.ghost['reset_called_on'] = st.ghost.get('reset_called_on', []) + [recv.t]
+        return [(st, NONE)]
+
+    def abstract_loop(self, eng, st, s, it, ordinal):
+        if not (isinstance(it, Obj) and it.kind == 'children'):
+            return super().abstract_loop(eng, st, s, it, ordinal)
+        c = z3.FreshConst(Z.Node, 'child')
+        b = st.clone()
+        b.ghost['reset_called_on'] = []
+        outs = []
+        ok = True
+        for b2 in eng.assign(s.target, ZV(c, 'node'), b):
+            for o in eng.exec_block(s.body, b2):
+                if o.sig in (NEXT, CONTINUE):
+                    called = any(x.eq(c) for x in o.st.ghost.get('reset_called_on', []))
+                    eng.oblige(o.st, "C04/reset/every-child-is-reset", z3.BoolVal(called), line=s.lineno)
+                elif o.sig == BREAK:
+                    eng.oblige(o.st, "C04/reset/every-child-is-reset", z3.BoolVal(False), line=s.lineno)
+                    outs.append(Outcome(o.st))
+                else:
+                    outs.append(o)
+        e = st.clone()
+        e.ghost['children_loop'] = True
+        outs.append(Outcome(e))
+        return outs
+
+    def on_exit(self, eng, o):
+        st = o.st
+        if o.sig not in (NEXT, RETURN):
+            eng.oblige(st, "C04/reset/no-exception", z3.BoolVal(False))
+            return
+        eng.oblige(st, "C04/reset/own-state-is-reset", z3.BoolVal(bool(st.ghost.get('own_reset'))))
+        eng.oblige(st, "C04/reset/loop-over-all-children", z3.BoolVal(bool(st.ghost.get('children_loop'))))
+
+    def signature(self, ob, model):
+        return {}
+
+
+CONTRACTS += [ResetOnlyMine, ResetCache]
